@@ -340,6 +340,14 @@ class Exec:
                 pass
             except Livelock as e:
                 self._add(Violation("livelock", scen.site(), "", str(e)))
+            except HarnessError:
+                raise
+            except Exception as e:   # noqa
+                # the library did something the scenario's bookkeeping cannot digest (never happens on
+                # the unchanged tree): reported as a violation with the exception as its detail, and
+                # confirmed by replay like any other
+                import traceback
+                self._add(Violation("unexpected-behaviour", scen.site(), type(e).__name__, traceback.format_exc()[-600:]))
             env.collect_unretrieved()
             for err in env.background_errors():
                 if not scen.expected_background(err):
